@@ -970,6 +970,16 @@ def _contexts_active_by_referents(frame: types.FrameType, origin: Any) -> List[C
         root = origin
 
     for referent in gc.get_referents(root):
+        if (
+            isinstance(referent, types.BuiltinMethodType)
+            and referent.__name__ in ("__exit__", "__aexit__")
+            and not isinstance(referent.__self__, types.ModuleType)
+        ):
+            # the exit method of a manager implemented in C (a lock, a file)
+            ret.append(
+                Context(is_async="a" in referent.__name__, obj=referent.__self__)
+            )
+            continue
         if not isinstance(referent, types.MethodType):
             continue
         # 'with' and 'async with' statements push a reference to the
